@@ -150,6 +150,7 @@ func runCase(k kase) string {
 		}
 	}()
 	var wg sync.WaitGroup
+	budget := time.Duration(k.delayMs+k.pauseMs)*time.Millisecond + 12*time.Second
 	if k.childCaller {
 		for i := range results {
 			wg.Add(1)
@@ -182,7 +183,9 @@ func runCase(k kase) string {
 				}
 			}(i)
 		}
-		wg.Wait()
+		if hung := waitOrUnblock(&wg, dir, budget); hung != "" {
+			return hung
+		}
 	} else {
 		for kk, v := range env {
 			os.Setenv(kk, v)
@@ -205,7 +208,9 @@ func runCase(k kase) string {
 				results[i].pid = pid
 			}(i)
 		}
-		wg.Wait()
+		if hung := waitOrUnblock(&wg, dir, budget); hung != "" {
+			return hung
+		}
 	}
 	seen := map[int]bool{}
 	for i, r := range results {
@@ -277,6 +282,44 @@ func runCase(k kase) string {
 		}
 	}
 	return ""
+}
+
+// waitOrUnblock waits for the Launch calls of a case. If they have not all returned a generous while after every
+// daemon has come back from Done(), the launchers (the daemons' parents) are killed so that the calls return, and
+// the hang is reported.
+func waitOrUnblock(wg *sync.WaitGroup, dir string, budget time.Duration) (hung string) {
+	done := make(chan struct{})
+	go func() { wg.Wait(); close(done) }()
+	select {
+	case <-done:
+		return ""
+	case <-time.After(budget):
+	}
+	after, _ := filepath.Glob(filepath.Join(dir, "after-done.*"))
+	markers, _ := filepath.Glob(filepath.Join(dir, "marker.*"))
+	var desc []string
+	for _, m := range markers {
+		pid, err := strconv.Atoi(strings.TrimPrefix(filepath.Base(m), "marker."))
+		if err != nil {
+			continue
+		}
+		if st, err := procStat(pid); err == nil {
+			if exe, _ := os.Readlink(fmt.Sprintf("/proc/%d/exe", st.ppid)); exe == selfExe && st.ppid != os.Getpid() {
+				desc = append(desc, fmt.Sprintf("daemon %d is alive, its launcher %d is still waiting", pid, st.ppid))
+				syscall.Kill(st.ppid, syscall.SIGKILL)
+			}
+		}
+		syscall.Kill(pid, syscall.SIGKILL)
+	}
+	select {
+	case <-done:
+	case <-time.After(20 * time.Second):
+		return "harness: Launch calls did not return even after their launchers were killed"
+	}
+	if len(after) == 0 {
+		return fmt.Sprintf("harness: no daemon got past Done() within %s (%d markers)", budget, len(markers))
+	}
+	return fmt.Sprintf("Launch had not returned %s after it was called although %d daemon(s) had already returned from Done() (%s)", budget, len(after), strings.Join(desc, "; "))
 }
 
 var grid = []int{0, 5, 40, 150}
